@@ -498,6 +498,17 @@ def _expire_tie():
     return translated.expire_tie()
 
 
+def _expiry_sweep_c10(seed, tier, cov):
+    import translated
+    return translated.expiry_sweep_c04(seed, tier, cov)
+
+
+CLAIMS["C10"]["ties"] += (_expire_tie,)
+CLAIMS["C10"]["extra_checks"] = _expiry_sweep_c10
+CLAIMS["C10"]["text"] += (" Translator tie (harness/py2coq_expire.py): OrderBook._check_expired_orders is REGENERATED from /repo's source on every run and "
+                          "coq/translated/ExpireC04Proofs.v is re-checked against the generated text: for a clock step of ANY size exactly one record per order past its time to "
+                          "live is reported, carrying the order as it is and the new time; a directed search moves the clock of a real Market by one and by several steps "
+                          "(Market._set_time) and compares the expiry records the logger receives with the orders that left the book.")
 CLAIMS["C04"]["ties"] += (_expire_tie,)
 CLAIMS["C04"]["text"] += (" Translator tie (harness/py2coq_expire.py; the expiry index as an insertion-ordered dict in coq/theories/ExpirePy.v): OrderBook._check_expired_orders "
                           "and OrderBook._set_time are REGENERATED from /repo's source on every run and coq/translated/ExpireC04Proofs.v is re-checked against the generated text: "
